@@ -15,10 +15,14 @@ reachable from ITS roots unchanged and only ever removes nodes (`C03_gc_keeps_re
 `C03_gc_only_removes`), its LRU is "last `cap` distinct" of everything ever pushed onto
 `top_level_calls` (`C03_lru_invariant`), and hence the property's retention clause holds whenever
 nothing but the user's own calls was pushed (`C03_retention_partial`).
+Since the repair of F22 that hypothesis is a theorem: `pushes` is exactly the sequence of top-level calls
+made (`C03_pushes_are_calls`), so the retention clause holds for ALL programs and histories whenever
+the collection returns (`C03_roots_are_calls`, `C03_retention`).
 The memory-safety clause (raw pointers of `intern_ref`) is outside this model: see PARTIAL.
 -/
 import IsoVerif.Lemmas.Pico
 import IsoVerif.Lemmas.PicoGc
+import IsoVerif.Lemmas.PicoPush
 import IsoVerif.Model.PicoIntern
 
 namespace IsoVerif.Props.C03
@@ -194,5 +198,73 @@ example :
     Intern.dangling (Intern.runL 8 [⟨3, .call 1 .param⟩, ⟨0, .src .param⟩] (initS 1 [⟨3, .call 1 .param⟩, ⟨0, .src .param⟩], Intern.Layer.init)
       [.set 0 7, .set 1 7, .set 2 0, .call 0 0, .call 0 1, .retain 0 1, .gc]).2 7 = true := by
   decide +kernel
+
+/-! ### retention for all programs and histories -/
+
+/-- **What was pushed is what was called.**  After any history, the ghost `pushes` (every id ever
+pushed onto `top_level_calls`) is exactly the sequence of ids of the top-level calls the history
+made (`callIds`: one id per `call` operation issued on a live storage, in order): a call made
+while a memoised function is running, and the verification of a dependency, push nothing. -/
+theorem C03_pushes_are_calls (fuel cap : Nat) (P : Prog) (h : List Op) :
+    (after fuel cap P h).pushes = callIds fuel P (initS cap P) h := pushes_after fuel cap P h
+
+/-- a history with a nested call, a re-verification after a source change and a collection -/
+example :
+    callIds 8 progLru (initS 2 progLru)
+        [.set 0 1, .set 1 0, .call 0 0, .set 0 5, .call 0 0, .gc, .call 1 1, .call 0 0]
+      = [⟨0, 0⟩, ⟨0, 0⟩, ⟨1, 1⟩, ⟨0, 0⟩] ∧
+    (after 8 2 progLru [.set 0 1, .set 1 0, .call 0 0, .set 0 5, .call 0 0, .gc, .call 1 1, .call 0 0]).log.length
+      = 5 := by
+  decide +kernel
+
+/-- **The collector's roots are the property's roots.**  With `1 ≤ cap`, after any history the
+roots of the next collection are the `cap` most recently made distinct top-level calls followed by
+the retained ids. -/
+theorem C03_roots_are_calls (fuel cap : Nat) (P : Prog) (hcap : 1 ≤ cap) (h : List Op) :
+    gcRoots (after fuel cap P h) =
+      lastDistinct cap (callIds fuel P (initS cap P) h) ++ (after fuel cap P h).retained.map (·.1) := by
+  unfold gcRoots
+  rw [C03_lru_invariant fuel P cap hcap h, C03_pushes_are_calls]
+
+/-- the history of the non-vacuity examples below: a query `(1,2)` called once, a query `(0,0)`
+called twice with a change of the source it reads in between (the second call re-verifies it and
+re-executes its dependency), then retained, then a third query `(0,1)` -/
+def histRet : List Op :=
+  [.set 0 1, .set 1 7, .set 2 9, .call 1 2, .call 0 0, .set 0 2, .call 0 0, .retain 0 0, .call 0 1]
+
+example : 1 ≤ 1 ∧ gcRoots (after 8 1 progLru histRet) = [⟨0, 1⟩, ⟨0, 0⟩] ∧
+    callIds 8 progLru (initS 1 progLru) histRet = [⟨1, 2⟩, ⟨0, 0⟩, ⟨0, 0⟩, ⟨0, 1⟩] ∧
+    (after 8 1 progLru histRet).retained.map (·.1) = [⟨0, 0⟩] := by
+  decide +kernel
+
+/-- **Retention (the retention clause of C03, for ALL programs and histories).**  With `1 ≤ cap`, a
+collection that returns keeps, with unchanged value, stamps and dependency list, every node
+reachable from the retained queries and from the `cap` most recently made distinct top-level calls
+(`callIds`: the ids of the `call` operations of the history, in order).  No hypothesis on the
+program or on the history. -/
+theorem C03_retention (fuel cap : Nat) (P : Prog) (pre : List Op) (hcap : 1 ≤ cap)
+    (s' : Storage) (hgc : gc (after fuel cap P pre) = (s', .ok ()))
+    (r : NodeId)
+    (hr : r ∈ lastDistinct cap (callIds fuel P (initS cap P) pre) ++ (after fuel cap P pre).retained.map (·.1))
+    (n : NodeId) (hn : Reach (after fuel cap P pre).derived r n) :
+    alookup s'.derived n = alookup (after fuel cap P pre).derived n := by
+  refine C03_gc_keeps_reachable _ _ hgc r n ?_ hn
+  rw [C03_roots_are_calls fuel cap P hcap pre]
+  exact hr
+
+/- Non-vacuity: capacity 1, `histRet`.  The collection returns; `(0,0)` is a root only because it is
+retained, `(0,1)` only because it is the most recent call; the dependency `(1,0)` of the retained
+query is reachable and kept; `(1,2)` is collected. -/
+example : ∃ s' r n, 1 ≤ 1 ∧ gc (after 8 1 progLru histRet) = (s', .ok ()) ∧
+    r ∈ lastDistinct 1 (callIds 8 progLru (initS 1 progLru) histRet) ++
+          (after 8 1 progLru histRet).retained.map (·.1) ∧
+    r ∉ lastDistinct 1 (callIds 8 progLru (initS 1 progLru) histRet) ∧
+    Reach (after 8 1 progLru histRet).derived r n ∧ n ≠ r ∧
+    (alookup s'.derived n).isSome = true ∧
+    s'.derived.length < (after 8 1 progLru histRet).derived.length :=
+  ⟨(gc (after 8 1 progLru histRet)).1, ⟨0, 0⟩, ⟨1, 0⟩, by decide,
+    Prod.ext rfl (by decide +kernel), by decide +kernel, by decide +kernel,
+    Reach.step (r := ⟨2, 5, 5, [⟨.derived ⟨1, 0⟩, 5⟩]⟩) (Reach.refl _) (by decide +kernel) (by decide +kernel),
+    by decide, by decide +kernel, by decide +kernel⟩
 
 end IsoVerif.Props.C03
